@@ -90,6 +90,28 @@ func TestC20(t *testing.T) {
 	discs := []string{"v1join", "v2join", "unite", "unite"}
 	r.Parallel(t, "real-priority", r.Cfg.pick(260, 6000)/scale, prioReal(allVers, false))
 	r.Parallel(t, "real-priority-v1-control", r.Cfg.pick(160, 4000)/scale, prioReal([]string{"v1"}, true))
+	// no instrumentation at all (nothing shared between harness goroutines, bare divider, Handle
+	// touching only its argument), the caller keeps writing to its Inputs map, Stop / cancel
+	// also immediately after the constructor: only the race detector looks at these runs
+	r.Parallel(t, "bare-priority", r.Cfg.pick(400, 8000)/scale, func(t *testing.T, idx int, rng *rand.Rand) {
+		sc := genPrioBareScenario(rng)
+		res := runPrioBare(sc)
+		r.Eval(1)
+		switch {
+		case res.Rejected:
+			r.Count("rejected_by_constructor", 1)
+		case res.Stuck != "":
+			r.Inconclusive("bare real-clock priority scenario did not finish: " + res.Stuck + " " + jsonString(sc))
+		default:
+			r.Count("bare.scenarios."+sc.Ver, 1)
+			r.Count("bare.writes_to_the_callers_inputs_map", int64(res.MapWrites))
+			r.Count("bare.control_calls", int64(res.CtlCalls))
+			if res.EarlyStop {
+				r.Count("bare.stop_or_cancel_right_after_construction", 1)
+			}
+			r.NonTrivial("bare:" + jsonString(sc))
+		}
+	})
 	r.Parallel(t, "real-join-copy", r.Cfg.pick(200, 4000)/scale, joinReal(joinGen{Discs: discs, NoCopy: -1, Retain: true, Real: true}))
 	r.Parallel(t, "real-join-nocopy", r.Cfg.pick(200, 4000)/scale, joinReal(joinGen{Discs: discs, NoCopy: 1, Retain: true, Real: true}))
 	r.Parallel(t, "real-join-v1-stop", r.Cfg.pick(150, 3000)/scale, joinReal(joinGen{Discs: []string{"v1join"}, Stop: 1, Real: true}))
